@@ -70,6 +70,11 @@ def progD7 : Program := oneFileProg true [.enum (nm "E") [(nm "A", some 42949672
 def progD8 : Program :=
   oneFileProg false [.struct .struct (nm "S") [⟨some (-40000), nm "x", .optional, .base 0 .i32, none⟩]]
 
+/-- D95: `struct S {1: optional i8 x}  const S c = {"x": 1000, "x": 1}` -/
+def progD95 : Program :=
+  oneFileProg true [.struct .struct (nm "S") [⟨some 1, nm "x", .optional, .base 0 .i8, none⟩],
+    .const (nm "c") (.ref (nm "S")) (.map [(.str (nm "x"), .int 1000), (.str (nm "x"), .int 1)])]
+
 /-- D9: `const i8 x = 1000` -/
 def progD9 : Program := oneFileProg true [.const (nm "x") (.base 0 .i8) (.int 1000)]
 
